@@ -2,6 +2,8 @@ import SpoxModel.Model.Singleton
 import SpoxModel.Lemmas.Singleton
 import SpoxModel.Generated.C05Overrides
 import SpoxModel.Model.MLOnnx
+import SpoxModel.Model.Subtype
+import SpoxModel.Lemmas.Subtype
 /-! Property theorems for C05 (only property-level statements and non-vacuity examples live here). -/
 set_option linter.unusedSimpArgs false
 set_option linter.unusedVariables false
@@ -1023,8 +1025,423 @@ example : seqMapFormals (.seq (.tensor 1 (some [.const 2]))) [.seq (.tensor 7 no
     = some [.tensor 1 (some [.const 2]), .tensor 7 none, .tensor 9 (some [])] := by decide
 example : seqMapFormals (.tensor 1 none) [] = none := by decide
 
+/-! ### Round 10 - `Type._subtype` / `Shape.__le__` / `PropValue.check` (the gate of value propagation) -/
+
+/-- **subtype_eq_compatible** (refinement to a simple specification): `_subtype` as written - with the
+    `self == other` shortcut in front of every clause - *is* the compatibility relation: same
+    constructors, same element type, shapes that do not contradict each other. The shortcut never
+    changes an answer. -/
+theorem subtype_eq_compatible : ∀ t u : Ty, subtype t u = compatible t u
+  | .tensor e sh, .tensor e' sh' => by
+    simp only [subtype, compatible]
+    by_cases h : Ty.tensor e sh = Ty.tensor e' sh'
+    · injection h with h1 h2
+      subst h1; subst h2
+      simp [shapeLe_refl]
+    · simp [h]
+  | .seq t, .seq t' => by
+    simp only [subtype, compatible]
+    rw [subtype_eq_compatible t t']
+    by_cases h : t = t'
+    · subst h
+      have : compatible t t = true := by
+        rw [← subtype_eq_compatible t t]
+        cases t <;> simp [subtype, shapeLe_refl]
+      simp [this]
+    · simp [h]
+  | .opt t, .opt t' => by
+    simp only [subtype, compatible]
+    rw [subtype_eq_compatible t t']
+    by_cases h : t = t'
+    · subst h
+      have : compatible t t = true := by
+        rw [← subtype_eq_compatible t t]
+        cases t <;> simp [subtype, shapeLe_refl]
+      simp [this]
+    · simp [h]
+  | .tensor _ _, .seq _ => rfl
+  | .tensor _ _, .opt _ => rfl
+  | .seq _, .tensor _ _ => rfl
+  | .seq _, .opt _ => rfl
+  | .opt _, .tensor _ _ => rfl
+  | .opt _, .seq _ => rfl
+
+theorem compatible_refl : ∀ t : Ty, compatible t t = true
+  | .tensor e sh => by simp [compatible, shapeLe_refl]
+  | .seq t => by simp [compatible, compatible_refl t]
+  | .opt t => by simp [compatible, compatible_refl t]
+
+/-- `t._subtype(t)` for every type -/
+theorem subtype_refl (t : Ty) : subtype t t = true := by
+  rw [subtype_eq_compatible]; exact compatible_refl t
+
+theorem compatible_symm : ∀ t u : Ty, compatible t u = compatible u t
+  | .tensor e sh, .tensor e' sh' => by
+    simp only [compatible, shapeLe_symm sh sh']
+    rw [Bool.beq_comm]
+  | .seq t, .seq t' => by simp [compatible, compatible_symm t t']
+  | .opt t, .opt t' => by simp [compatible, compatible_symm t t']
+  | .tensor _ _, .seq _ => rfl
+  | .tensor _ _, .opt _ => rfl
+  | .seq _, .tensor _ _ => rfl
+  | .seq _, .opt _ => rfl
+  | .opt _, .tensor _ _ => rfl
+  | .opt _, .seq _ => rfl
+
+/-- **subtype_symm**: despite its name and the `<=` it is built from, `_subtype` is a *symmetric*
+    relation on Tensor / Sequence / Optional types (`Unknown.__le__` answers `True` to everything, and
+    an unknown rank on either side passes): it tests compatibility, not refinement. -/
+theorem subtype_symm (t u : Ty) : subtype t u = subtype u t := by
+  rw [subtype_eq_compatible, subtype_eq_compatible, compatible_symm]
+
+/-- ... and it is not transitive (so it is no order at all): `float32[3] ≤ float32[N] ≤ float32[4]`. -/
+theorem subtype_not_transitive_counterexample :
+    subtype (.tensor 1 (some [.const 3])) (.tensor 1 (some [.sym "N"])) = true
+    ∧ subtype (.tensor 1 (some [.sym "N"])) (.tensor 1 (some [.const 4])) = true
+    ∧ subtype (.tensor 1 (some [.const 3])) (.tensor 1 (some [.const 4])) = false := by
+  decide
+
+/-- the oracle's refinement relation (`tyLe`: says at least as much) implies `_subtype` -/
+theorem tyLe_imp_subtype : ∀ t u : Ty, tyLe t u = true → subtype t u = true
+  | .tensor e sh, .tensor e' sh', h => by
+    rw [subtype_eq_compatible]
+    simp only [tyLe, Bool.and_eq_true, beq_iff_eq] at h
+    obtain ⟨he, hs⟩ := h
+    subst he
+    cases sh' with
+    | none => cases sh <;> simp [compatible, shapeLe]
+    | some ds' =>
+      cases sh with
+      | none => simp [compatible, shapeLe]
+      | some ds =>
+        simp only [Bool.and_eq_true, beq_iff_eq] at hs
+        simp [compatible, shapeLe, dimsLe_of_zip_dimLe ds ds' hs.1 hs.2]
+  | .seq t, .seq t', h => by
+    have := tyLe_imp_subtype t t' (by simpa [tyLe] using h)
+    simp [subtype, this]
+  | .opt t, .opt t', h => by
+    have := tyLe_imp_subtype t t' (by simpa [tyLe] using h)
+    simp [subtype, this]
+  | .tensor _ _, .seq _, h => by simp [tyLe] at h
+  | .tensor _ _, .opt _, h => by simp [tyLe] at h
+  | .seq _, .tensor _ _, h => by simp [tyLe] at h
+  | .seq _, .opt _, h => by simp [tyLe] at h
+  | .opt _, .tensor _ _, h => by simp [tyLe] at h
+  | .opt _, .seq _, h => by simp [tyLe] at h
+
+/-- **tyLe_stripUnk**: the type ONNX inferred *refines* (in the oracle's sense) the type the
+    constructor reports after stripping the invented dimension names - `stripUnk_weakens` stated in the
+    executable relation the oracle and the supplement theorems use. -/
+theorem tyLe_stripUnk (g : List String) : ∀ t : Ty, tyLe t (stripUnk g t) = true
+  | .tensor e none => by simp [tyLe, stripUnk]
+  | .tensor e (some ds) => by
+    simp only [tyLe, stripUnk, Option.map_some, beq_self_eq_true, Bool.true_and, List.length_map,
+      Bool.and_eq_true, beq_iff_eq, true_and]
+    exact zip_dimLe_stripDim g ds
+  | .seq t => by simp only [tyLe, stripUnk]; exact tyLe_stripUnk g t
+  | .opt t => by simp only [tyLe, stripUnk]; exact tyLe_stripUnk g t
+
+/-- the reported type admits the inferred one as a member -/
+theorem subtype_stripUnk (g : List String) (t : Ty) : subtype t (stripUnk g t) = true :=
+  tyLe_imp_subtype _ _ (tyLe_stripUnk g t)
+
+/-- **propCheck_mono**: a weaker type admits every value a sharper one admits - if the array passes
+    `PropValue.check` against `t` and `t` refines `u`, it passes against `u`. -/
+theorem propCheck_mono (ve : Nat) (vs : List Nat) : ∀ t u : Ty, tyLe t u = true →
+    propCheck ve vs t = true → propCheck ve vs u = true
+  | .tensor e sh, .tensor e' sh', h, hp => by
+    simp only [tyLe, Bool.and_eq_true, beq_iff_eq] at h
+    obtain ⟨he, hs⟩ := h
+    subst he
+    simp only [propCheck, Bool.and_eq_true, beq_iff_eq] at hp ⊢
+    refine ⟨?_, hp.2⟩
+    cases sh' with
+    | none => simp [shapeLe]
+    | some ds' =>
+      cases sh with
+      | none => simp at hs
+      | some ds =>
+        simp only [Bool.and_eq_true, beq_iff_eq] at hs
+        simp only [shapeLe] at hp ⊢
+        exact dimsLe_mono _ ds ds' hp.1 hs.1 hs.2
+  | .seq _, .seq _, _, hp => by simp [propCheck] at hp
+  | .opt _, .opt _, _, hp => by simp [propCheck] at hp
+  | .tensor _ _, .seq _, h, _ => by simp [tyLe] at h
+  | .tensor _ _, .opt _, h, _ => by simp [tyLe] at h
+  | .seq _, .tensor _ _, h, _ => by simp [tyLe] at h
+  | .seq _, .opt _, h, _ => by simp [tyLe] at h
+  | .opt _, .tensor _ _, h, _ => by simp [tyLe] at h
+  | .opt _, .seq _, h, _ => by simp [tyLe] at h
+
+/-- **propCheck_stripUnk**: stripping the invented dimension names never makes `Node.inference` drop
+    a propagated value that fits the type ONNX inferred. -/
+theorem propCheck_stripUnk (g : List String) (ve : Nat) (vs : List Nat) (t : Ty)
+    (h : propCheck ve vs t = true) : propCheck ve vs (stripUnk g t) = true :=
+  propCheck_mono ve vs t _ (tyLe_stripUnk g t) h
+
+/-- against a type all of whose dimensions are constants the check is exact: same element type and
+    exactly that shape -/
+theorem propCheck_const_shape (ve e : Nat) (vs ws : List Nat) :
+    propCheck ve vs (.tensor e (some (arrayShape ws))) = (decide (vs = ws) && ve == e) := by
+  simp [propCheck, shapeLe, dimsLe_arrayShape]
+
+/-- an unknown rank admits every array of the right element type -/
+theorem propCheck_unknown_rank (ve e : Nat) (vs : List Nat) :
+    propCheck ve vs (.tensor e none) = (ve == e) := by
+  simp [propCheck, shapeLe]
+
+/-- **checkedProp_sound / _complete**: the second loop of `Node.inference` attaches the backend's value
+    for an output key exactly when that output is typed and the value passes `PropValue.check` against
+    that type. -/
+theorem checkedProp_sound (raw : List (String × RawVal)) (tys : List (String × Option Ty))
+    (k d : String) (h : (k, d) ∈ checkedProp raw tys) :
+    ∃ t v, (k, some t) ∈ tys ∧ lookupRaw k raw = some v ∧ v.digest = d
+      ∧ propCheck v.elem v.shape t = true := by
+  simp only [checkedProp, List.mem_filterMap] at h
+  obtain ⟨⟨k', ot⟩, hmem, hf⟩ := h
+  cases ot with
+  | none => simp at hf
+  | some t =>
+    cases hv : lookupRaw k' raw with
+    | none => simp [hv] at hf
+    | some v =>
+      simp only [hv] at hf
+      by_cases hc : propCheck v.elem v.shape t = true
+      · simp only [hc, if_true, Option.some.injEq, Prod.mk.injEq] at hf
+        obtain ⟨hk, hd⟩ := hf
+        subst hk
+        exact ⟨t, v, hmem, hv, hd, hc⟩
+      · simp [hc] at hf
+
+theorem checkedProp_complete (raw : List (String × RawVal)) (tys : List (String × Option Ty))
+    (k : String) (t : Ty) (v : RawVal) (hmem : (k, some t) ∈ tys) (hv : lookupRaw k raw = some v)
+    (hc : propCheck v.elem v.shape t = true) : (k, v.digest) ∈ checkedProp raw tys := by
+  simp only [checkedProp, List.mem_filterMap]
+  exact ⟨(k, some t), hmem, by simp [hv, hc]⟩
+
+/-- the checked backend is one of the backends `types_ignore_values` quantifies over: whatever passes
+    or fails `PropValue.check`, the call raises as `construct` does and the types are `construct`'s -/
+theorem checked_values_ignore_types (Infer : InferFn)
+    (raw : Call → List (String × Option Ty) → List (String × RawVal)) (c : Call) :
+    (match constructVP Infer (fun c tys => checkedProp (raw c tys) tys) c with
+      | .error e => Except.error e
+      | .ok outs => Except.ok (outs.map (fun (o : OutVar) => (o.key, o.ty)))) = construct Infer c :=
+  types_ignore_values Infer _ c
+
+-- non-vacuity: a [2,3] float array fits float32[N][3], float32[?][3], float32[...]; not float32[2][4],
+-- not int64[2][3], not a sequence type; the value is attached / dropped accordingly
+example : propCheck 1 [2, 3] (.tensor 1 (some [.sym "N", .const 3])) = true := by decide
+example : propCheck 1 [2, 3] (.tensor 1 (some [.const 2, .const 4])) = false := by decide
+example : propCheck 1 [2, 3] (.tensor 7 (some [.const 2, .const 3])) = false := by decide
+example : propCheck 1 [] (.tensor 1 (some [])) = true := by decide
+example : propCheck 1 [0] (.tensor 1 (some [])) = false := by decide
+example : propCheck 1 [2, 3] (.seq (.tensor 1 none)) = false := by decide
+example : checkedProp [("Y", ⟨1, [2, 3], "d"⟩), ("Z", ⟨1, [2], "e"⟩)]
+    [("Y", some (.tensor 1 (some [.unk, .const 3]))), ("Z", some (.tensor 1 (some [.const 5]))), ("W", none)]
+    = [("Y", "d")] := by decide
+example : subtype (.tensor 1 none) (.tensor 1 (some [.const 3])) = true
+    ∧ subtype (.tensor 1 (some [.const 3])) (.tensor 7 (some [.const 3])) = false
+    ∧ subtype (.seq (.tensor 1 (some [.sym "N"]))) (.seq (.tensor 1 (some [.const 3]))) = true
+    ∧ subtype (.seq (.tensor 1 none)) (.opt (.tensor 1 none)) = false := by decide
+example : tyLe (.tensor 1 (some [.sym "unk__0", .const 2])) (stripUnk [] (.tensor 1 (some [.sym "unk__0", .const 2]))) = true := by decide
+
+/-! ### Round 10 (cont.) - values through flows; the refinement relation is a partial order -/
+
+/-- end to end -/
+theorem fitting_value_attached (Infer : InferFn)
+    (raw : Call → List (String × Option Ty) → List (String × RawVal)) (c : Call)
+    (hk : kindsOk c.sig.inputs c.args = true) (hty : anyUntyped c = false)
+    (res : List (String × Option Ty)) (hI : Infer (singleton c) = some res)
+    (tys : List (String × Option Ty)) (htys : construct Infer c = .ok tys)
+    (k : String) (hkey : k ∈ c.outKeys) (t : Ty) (hl : lookupTy k res = some t)
+    (v : RawVal) (hv : lookupRaw k (raw c tys) = some v)
+    (hfit : propCheck v.elem v.shape t = true) :
+    (k, v.digest) ∈ checkedProp (raw c tys) tys := by
+  have hc : construct Infer c =
+      .ok (c.outKeys.map (fun k => (k, (lookupTy k res).map (stripUnk c.givenNames)))) := by
+    simp [construct, hk, hty, hI]
+  rw [hc] at htys
+  injection htys with htys
+  apply checkedProp_complete (raw c tys) tys k (stripUnk c.givenNames t) v _ hv
+    (propCheck_stripUnk _ _ _ _ hfit)
+  rw [← htys]
+  simp only [List.mem_map]
+  exact ⟨k, hkey, by simp [hl]⟩
+
+/-- the oracle's refinement relation is transitive ... -/
+theorem tyLe_trans : ∀ t u w : Ty, tyLe t u = true → tyLe u w = true → tyLe t w = true
+  | .tensor e sh, .tensor e' sh', .tensor e'' sh'', h1, h2 => by
+    simp only [tyLe, Bool.and_eq_true, beq_iff_eq] at h1 h2 ⊢
+    obtain ⟨he1, hs1⟩ := h1
+    obtain ⟨he2, hs2⟩ := h2
+    refine ⟨he1.trans he2, ?_⟩
+    cases sh'' with
+    | none => rfl
+    | some zs =>
+      cases sh' with
+      | none => simp at hs2
+      | some ys =>
+        cases sh with
+        | none => simp at hs1
+        | some xs =>
+          simp only [Bool.and_eq_true, beq_iff_eq] at hs1 hs2 ⊢
+          exact ⟨hs1.1.trans hs2.1, zipAll_trans xs ys zs hs1.1 hs2.1 hs1.2 hs2.2⟩
+  | .seq t, .seq u, .seq w, h1, h2 => by
+    simp only [tyLe] at h1 h2 ⊢; exact tyLe_trans t u w h1 h2
+  | .opt t, .opt u, .opt w, h1, h2 => by
+    simp only [tyLe] at h1 h2 ⊢; exact tyLe_trans t u w h1 h2
+  | .tensor _ _, .seq _, _, h, _ => by simp [tyLe] at h
+  | .tensor _ _, .opt _, _, h, _ => by simp [tyLe] at h
+  | .seq _, .tensor _ _, _, h, _ => by simp [tyLe] at h
+  | .seq _, .opt _, _, h, _ => by simp [tyLe] at h
+  | .opt _, .tensor _ _, _, h, _ => by simp [tyLe] at h
+  | .opt _, .seq _, _, h, _ => by simp [tyLe] at h
+  | .tensor _ _, .tensor _ _, .seq _, _, h => by simp [tyLe] at h
+  | .tensor _ _, .tensor _ _, .opt _, _, h => by simp [tyLe] at h
+  | .seq _, .seq _, .tensor _ _, _, h => by simp [tyLe] at h
+  | .seq _, .seq _, .opt _, _, h => by simp [tyLe] at h
+  | .opt _, .opt _, .tensor _ _, _, h => by simp [tyLe] at h
+  | .opt _, .opt _, .seq _, _, h => by simp [tyLe] at h
+
+/-- ... and antisymmetric -/
+theorem tyLe_antisymm : ∀ t u : Ty, tyLe t u = true → tyLe u t = true → t = u
+  | .tensor e sh, .tensor e' sh', h1, h2 => by
+    simp only [tyLe, Bool.and_eq_true, beq_iff_eq] at h1 h2
+    obtain ⟨he1, hs1⟩ := h1
+    obtain ⟨_, hs2⟩ := h2
+    subst he1
+    cases sh with
+    | none =>
+      cases sh' with
+      | none => rfl
+      | some ys => simp at hs1
+    | some xs =>
+      cases sh' with
+      | none => simp at hs2
+      | some ys =>
+        simp only [Bool.and_eq_true, beq_iff_eq] at hs1 hs2
+        rw [zipAll_antisymm xs ys hs1.1 hs1.2 hs2.2]
+  | .seq t, .seq u, h1, h2 => by
+    simp only [tyLe] at h1 h2; rw [tyLe_antisymm t u h1 h2]
+  | .opt t, .opt u, h1, h2 => by
+    simp only [tyLe] at h1 h2; rw [tyLe_antisymm t u h1 h2]
+  | .tensor _ _, .seq _, h, _ => by simp [tyLe] at h
+  | .tensor _ _, .opt _, h, _ => by simp [tyLe] at h
+  | .seq _, .tensor _ _, h, _ => by simp [tyLe] at h
+  | .seq _, .opt _, h, _ => by simp [tyLe] at h
+  | .opt _, .tensor _ _, h, _ => by simp [tyLe] at h
+  | .opt _, .seq _, h, _ => by simp [tyLe] at h
+
+
+
+
+theorem attachOne_fits (raw : List (String × RawVal)) (p : String × Option Ty) :
+    (attachOne raw p).fits = true := by
+  unfold attachOne
+  cases h1 : p.2 with
+  | none => simp [VarState.fits]
+  | some t =>
+    cases h2 : lookupRaw p.1 raw with
+    | none => simp [VarState.fits]
+    | some v =>
+      by_cases hc : propCheck v.elem v.shape t = true
+      · simp [hc, VarState.fits]
+      · simp [hc, VarState.fits]
+
+theorem attachOne_ty (raw : List (String × RawVal)) (p : String × Option Ty) :
+    (attachOne raw p).ty = p.2 := by
+  unfold attachOne
+  cases h1 : p.2 with
+  | none => simp
+  | some t =>
+    cases h2 : lookupRaw p.1 raw with
+    | none => simp
+    | some v => by_cases hc : propCheck v.elem v.shape t = true <;> simp [hc]
+
+/-- the per-Var form of the attach loop agrees with `checkedProp` -/
+theorem attachOne_mem_checkedProp (raw : List (String × RawVal)) (tys : List (String × Option Ty))
+    (p : String × Option Ty) (hp : p ∈ tys) (v : RawVal) (h : (attachOne raw p).raw = some v) :
+    (p.1, v.digest) ∈ checkedProp raw tys := by
+  unfold attachOne at h
+  cases h1 : p.2 with
+  | none => simp [h1] at h
+  | some t =>
+    cases h2 : lookupRaw p.1 raw with
+    | none => simp [h1, h2] at h
+    | some w =>
+      by_cases hc : propCheck w.elem w.shape t = true
+      · simp [h1, h2, hc] at h
+        subst h
+        have hp' : (p.1, some t) ∈ tys := by rw [← h1]; exact hp
+        exact checkedProp_complete raw tys p.1 t w hp' h2 hc
+      · simp [h1, h2, hc] at h
+
+theorem stepOut_fits (st : Env × Nat) (s : Step) (c : Call) (r : Result)
+    (h : ∀ v, (st.1 v).fits = true) : ∀ v, ((stepOut st s c r).1 v).fits = true := by
+  intro v
+  cases r with
+  | error e => exact h v
+  | ok tys =>
+    simp only [stepOut]
+    split
+    · rw [List.getD_eq_getElem?_getD]
+      cases hg : (List.map (attachOne (s.backend c tys)) tys)[v - st.2]? with
+      | none => rfl
+      | some x =>
+        have hx := List.mem_of_getElem? hg
+        simp only [List.mem_map] at hx
+        obtain ⟨p, _, rfl⟩ := hx
+        simpa using attachOne_fits _ p
+    · exact h v
+
+theorem stepEnv_fits (Infer : InferFn) (st : Env × Nat) (s : Step)
+    (h : ∀ v, (st.1 v).fits = true) : ∀ v, ((stepEnv Infer st s).1.1 v).fits = true :=
+  stepOut_fits st s _ _ h
+
+/-- **flow_values_fit** (invariant of every reachable state) -/
+theorem flow_values_fit (Infer : InferFn) : ∀ (steps : List Step) (st : Env × Nat),
+    (∀ v, (st.1 v).fits = true) → ∀ v, ((runFlow Infer st steps).1.1 v).fits = true
+  | [], st, h => by simpa [runFlow] using h
+  | s :: ss, st, h => by
+    simp only [runFlow]
+    exact flow_values_fit Infer ss _ (stepEnv_fits Infer st s h)
+
+/-- **flow_step_is_construct**: in any flow every call is answered by `construct` on the call as the
+    Vars stand at that moment -/
+theorem flow_step_is_construct (Infer : InferFn) (pre post : List Step) (s : Step) (st : Env × Nat) :
+    (runFlow Infer st (pre ++ s :: post)).2[pre.length]? =
+      some (construct Infer (s.call (runFlow Infer st pre).1.1)) := by
+  rw [runFlow_append]
+  simp only
+  rw [List.getElem?_append_right (by simp [runFlow_length])]
+  simp [runFlow_length, runFlow, stepEnv_result]
+
+
+def flowEnv0 : Env := fun v =>
+  if v = 0 then ⟨some (f32 [.const 2, .const 5]), none⟩ else ⟨some (.tensor 7 (some [.const 1])), some ⟨7, [1], "k=2"⟩⟩
+
+/-- TopK whose backend offers a fitting `Values` and an `Indices` of the wrong shape -/
+def topkStep : Step :=
+  { sig := topkSig, args := [.var 0, .var 1], attrs := [("axis", some "m1")], outVariadic := 0
+    backend := fun _ _ => [("Values", ⟨1, [2, 2], "vals"⟩), ("Indices", ⟨7, [3, 2], "idx"⟩)] }
+
+/-- then Add on the first result (rejected by this judgement: the environment stays as it is) -/
+def addStep : Step :=
+  { sig := addSig, args := [.var 10, .var 10], attrs := [], outVariadic := 0, backend := fun _ _ => [] }
+
+example : (flowEnv0 1).fits = true := by decide
+example :
+    let r := runFlow topkInfer (flowEnv0, 10) [topkStep, addStep]
+    ((r.1.1 10).ty, (r.1.1 10).raw.map (fun v => v.digest), (r.1.1 11).raw, r.1.2, r.2.length)
+      = (some (f32 [.const 2, .unk]), some "vals", none, 12, 2) := by decide
+/-- the constant fed to `K` reaches the one-node model as an initializer, by digest -/
+example : (singleton (topkStep.call flowEnv0)).inits = [("K", "k=2")] := by decide
+
 section ML
 open C06M MLOnnx
+
+
+
 
 /-! ### The ml operators whose inference spox replaces: agreement with / refinement of ONNX's answer -/
 
